@@ -10,6 +10,7 @@ mod checks_c17;
 mod checks_c19;
 mod checks_e1;
 mod checks_http;
+mod checks_slow;
 mod crash;
 mod dump;
 mod e1;
@@ -90,6 +91,15 @@ fn engine_shard(id: &str, tier: &str, seed: u64, replay: Option<&serde_json::Val
                 }
             }
         }
+        if (id == "C02" || id == "C18") && tier == "thorough" && out.found.is_empty() && replay.map(|r| r["replay"]["origin"] == "slow-storage").unwrap_or(shard.k == 11 % shard.n) {
+            // one storage call of a request takes 33 s / 64 s: the ordinary outcome with its effect, or
+            // an error with none - also no late one
+            let mut errs = vec![];
+            if let Some(f) = checks_slow::slow_storage_part(id, seed, &mut out.cov, &mut errs) {
+                out.found.push(f);
+            }
+            out.errors.extend(errs);
+        }
         if id == "C18" && replay.is_none() && out.found.is_empty() && shard.k == 8 % shard.n {
             if let Some(f) = checks_e1::lock_held_part(&mut out.cov, "C18") {
                 out.found.push(f);
@@ -149,7 +159,18 @@ fn engine_shard(id: &str, tier: &str, seed: u64, replay: Option<&serde_json::Val
         "C06" => checks_c06::shard_run(tier, seed, replay_case, shard),
         "C17" => checks_c17::shard_run(tier, seed, replay_case, shard),
         "C19" => checks_c19::shard_run(tier, seed, replay_case, shard),
-        "C15" | "C20" => checks_http::shard_run_grammar(id, tier, seed, replay_case, shard),
+        "C15" | "C20" => {
+            let mut out = checks_http::shard_run_grammar(id, tier, seed, replay_case, shard);
+            if id == "C20" && tier == "thorough" && out.found.is_empty() && replay.map(|r| r["replay"]["origin"] == "slow-storage").unwrap_or(shard.k == 11 % shard.n) {
+                // whatever is answered to a request whose storage call takes 33 s / 64 s forbids caching
+                let mut errs = vec![];
+                if let Some(f) = checks_slow::slow_storage_part("C20", seed, &mut out.cov, &mut errs) {
+                    out.found.push(f);
+                }
+                out.errors.extend(errs);
+            }
+            out
+        }
         "C16" => checks_http::shard_run_c16(tier, seed, replay_case, shard),
         "C12" => {
             let plan = checks_e1::plan_for("C12H", tier).unwrap();
